@@ -193,6 +193,7 @@ def check_case(ctx, tokens, comp, doc, texts=None):
         ctx.violation("string-form-not-fixed-point-under-renamed-tokens", case, {"tokens": tokens, "str": s.value, "str2": str(c2.value)})
         return
     ctx.count("printed_and_recompiled")
+    ctx.remember("renamed-tokens", lambda: (repr(results(make_env(tokens), t_cus, doc)), str(make_env(tokens).compile(t_cus))))
     if len(ctx.samples) < 3 or r.random() < 0.005:
         ctx.sample({"tokens": tokens, "custom_text": t_cus, "default_text": t_def, "str": s.value, "matches": len(base[1])})
 
